@@ -24,6 +24,15 @@ ACCESSORS = {"operator[]", "at", "begin", "end", "cbegin", "cend", "rbegin", "re
 ALLOC_FUNCS = {"malloc", "calloc", "realloc", "strdup", "operator new", "operator new[]"}
 FREE_FUNCS = {"free", "operator delete", "operator delete[]"}
 RET_ARG0 = {"memcpy", "memmove", "strcpy", "strncpy", "strcat", "strncat", "memset"}
+# index (negative = from the end) of the arguments a standard algorithm writes through
+STD_ALGO_WRITES = {"copy": [2], "copy_n": [2], "copy_backward": [2], "move": [2], "move_backward": [2], "copy_if": [2],
+                   "fill": [0], "fill_n": [0], "iota": [0], "generate": [0], "generate_n": [0],
+                   "partial_sum": [2], "adjacent_difference": [2], "transform": [-2],
+                   "sort": [0], "stable_sort": [0], "reverse": [0], "rotate": [0], "unique": [0], "remove": [0], "remove_if": [0],
+                   "swap_ranges": [0, 2], "nth_element": [0], "partial_sort": [0],
+                   "max_element": [], "min_element": [], "find": [], "find_if": [], "count": [], "count_if": [], "accumulate": [],
+                   "lower_bound": [], "upper_bound": [], "binary_search": [], "equal": [], "mismatch": [], "distance": [],
+                   "adjacent_find": [], "all_of": [], "any_of": [], "none_of": [], "equal_range": [], "search": [], "max": [], "min": []}
 PURE_EXT = {"strlen", "strcmp", "strncmp", "memcmp", "pow", "log", "ceil", "floor", "sqrt", "abs", "log2", "exp", "min", "max",
             "move", "forward", "isspace", "atoi", "bits", "lower_bound", "upper_bound", "operator-", "operator==", "operator!=",
             "operator<", "operator>", "operator<=", "operator>=", "operator+", "distance", "swap_dummy", "assert", "__assert_fail",
@@ -506,8 +515,12 @@ class Effects:
                 # mutating method of an external class (std container, stream, mutex ...): modifies the object
                 objs = self.call_obj_regions(f, n, lp)
                 eff(objs, self.label_of(f, n.get("obj")) if n.get("obj") is not None else None, n)
-        # writes through pointer / reference parameters to non-const
-        for i in n.get("pw", []):
+        # writes through pointer / reference parameters to non-const.  The standard algorithms are templates over iterators, so
+        # every pointer argument looks writable; what they actually write is known
+        pw = n.get("pw", [])
+        if (n.get("fn") or "").startswith("std::") and name in STD_ALGO_WRITES:
+            pw = [i if i >= 0 else len(args) + i for i in STD_ALGO_WRITES[name]]
+        for i in pw:
             j = i
             if j < len(args):
                 a = args[j]
